@@ -35,34 +35,50 @@ CFG = dict(
         "roundedCone_eq_formulaOld", "roundedCone_guard_needed", "roundedCone_guard_sharp",
         # VarryingThicknessLine = Union of rounded cones (hand transcription of the loop)
         "varLine_lipschitz", "varLine_neg_iff", "varLine_isSome", "varLineCones_eq_model", "varLine_eq_model",
+        # round 2 — exact distance, attained, for the remaining shapes (Props/C19Exact.lean)
+        "box_ray", "box_level_attained", "roundedBox_exact_attained", "roundedBox_exact_le", "roundedBox_exact",
+        "roundedCylinder_eq_g2", "roundedCylinder_exact_attained", "roundedCylinder_exact_le", "roundedCylinder_exact",
+        "sphere_exact_attained_all", "sphere_exact",
+        "plane_lipschitz_scaled", "plane_exact_scaled_le", "plane_exact_scaled_attained", "plane_zero_normal",
+        # round 2 — rounded cone, interior (Props/C19ConeInterior.lean)
+        "cone_surface_point", "exists_unit_with_slope", "roundedCone_exact_attained_inside", "roundedCone_exact_attained_inside_all", "roundedCone_exact_all",
+        # round 2 — what the combinators do to exactness (Props/C19Compose.lean)
+        "min_exactOutside", "max_exactInside", "subtract_exactInside", "union_exactOutside", "intersect_exactInside",
+        "translate_exactAt", "translate_exactOutside", "translate_exactInside",
+        "sphere_exactOutside", "sphere_exactInside", "roundedCone_exactOutside", "roundedCone_exactInside", "varLine_exactOutside",
+        "union_not_exact_inside", "union_not_exactAt_inside",
     ],
     helper_theorems=[
         "PolyVerif.Cone.roundedCone_unfold", "PolyVerif.Cone.a2_nonpos_iff", "PolyVerif.Cone.roundedCone_eq_core", "PolyVerif.Cone.nested_le_ball", "PolyVerif.Cone.mul_abs_lt_iff", "PolyVerif.Cone.test1_iff", "PolyVerif.Cone.test2_iff",
         "PolyVerif.Cone.core_eq_prof", "PolyVerif.Cone.cap_le", "PolyVerif.Cone.prof_le", "PolyVerif.Cone.prof_attained",
         "PolyVerif.Cone.roundedCone_eq_prof", "PolyVerif.Cone.distance_axis_point",
+        "PolyVerif.Cone.support_line", "PolyVerif.Cone.first_order",
+        "PolyVerif.SdfExact.rayH_pos", "PolyVerif.SdfExact.rayH_dist", "PolyVerif.SdfExact.rayR_pos", "PolyVerif.SdfExact.rayR_dist",
+        "PolyVerif.SdfExact.profile_level_attained", "PolyVerif.SdfExact.radial_dir",
     ],
-    modules=["PolyVerif.Props.C19", "PolyVerif.Props.C19Cone", "PolyVerif.Props.C19Capsule"],
+    modules=["PolyVerif.Props.C19", "PolyVerif.Props.C19Cone", "PolyVerif.Props.C19Capsule", "PolyVerif.Props.C19Exact", "PolyVerif.Props.C19ConeInterior", "PolyVerif.Props.C19Compose"],
     streams=[dict(name="c19", n=dict(quick=400, thorough=30000))],
     harness_files=[],
     trusted=T_COMMON + ["hand model of sdf.Union/Intersect (PolyVerif/Model/SdfOps.lean) and of the VarryingThicknessLine loop (Model/SdfVarLine.lean), tied at Float bit-for-bit by the c19 stream",
                         "reference distance functions inside the driver (Driver/C19.lean) used by the oracle lines"],
     residue=[
         "RoundedCone: sign, zero set, 1-Lipschitz bound, exact-distance lower bound and the convex-hull form (0 < r1, r2) are proved for ALL parameters (…_all theorems: a = b, nested and internally tangent balls included; no sign condition on the radii except where stated). The source has two regimes separated exactly by a2 > 0 ⇔ |r1 - r2| < |b - a| (Cone.a2_nonpos_iff): the three-branch formula (roundedCone_profile and the …_profile forms need this guard) and the early return of the larger ball (roundedCone_nested). The early return was added to /repo (b302544) after this proof found the bare formula wrong outside the guard; roundedCone_guard_needed / roundedCone_guard_sharp are closed witnesses about coneFormulaOld, a local Lean copy of the closure body without the early return (not regenerated — it documents the old defect, it is not a claim about the current source); the same two inputs run first in the c19 stream as fixed corpus lines against the current source",
-        "RoundedCone: exact distance is proved as lower bound everywhere (roundedCone_exact_le_all) and attained for points outside or on the shape with radii >= 0 (roundedCone_exact_attained_outside_all); attained for interior points is not proved (not claimed by the property for this shape)",
+        "RoundedCone: exact distance is proved in both directions for every point and ALL parameters: lower bound (roundedCone_exact_le_all), attained outside or on the shape with radii >= 0 (roundedCone_exact_attained_outside_all) and attained at interior points with no condition on the radii (roundedCone_exact_attained_inside_all, round 2: first-order optimality of the minimising ball + supporting line of the norm; on the axis a unit direction with the cone's slope; nested/tangent/a = b through the sphere); roundedCone_exact_all is the conjunction for radii >= 0 (with a negative radius and p outside there may be no zero set at all)",
         "RoundedCone: the sign set is given as the union of the open balls B(a+t(b-a), r1+t(r2-r1)), t in [0,1] (roundedCone_neg_iff_all), as the Mathlib convex hull of the two open end balls in EuclideanSpace R (Fin 3) (roundedCone_neg_iff_convexHull_all, via the coordinate bridge toE), and under the guard as the three profile regions (roundedCone_neg_iff_profile); 'interior of the convex hull of the closed balls' is read as that convex hull of open balls",
         "RoundedCone near tangency in float64 (|r1-r2| within rounding of |b-a|): a2 is a difference of nearly equal numbers, which side of the early return is taken is decided by rounding; both regimes agree in the limit; sampled by the stream (rcone.near_tangent), not a theorem (IEEE rounding)",
-        "exact distance: both directions (lower bound |f p| <= dist(p, s) for every surface point s, and a surface point at distance exactly |f p|) are proved for sphere, plane, box and capsule (line_exact: every p, outside, inside and on the axis; radius >= 0, a != b)",
-        "rounded box: negative exactly on the Minkowski sum of the closed box with the open ball of the rounding radius (roundedBox_neg_iff_minkowski). Rounded cylinder with rounding rb > 0, 2·radius − rb >= 0 and height >= 0: negative exactly on the Minkowski sum of the core cylinder (radius 2·radius − rb — sic, the source doubles the radius — half height bodyHeight) with the open ball of radius rb (roundedCylinder_neg_iff_minkowski)",
+        "exact distance: both directions (lower bound |f p| <= dist(p, s) for every zero-set point s, and a zero-set point at distance exactly |f p|) are proved for ALL seven primitives and every p: sphere (sphere_exact, centre included), plane (unit normal), box, capsule (line_exact; radius >= 0, a != b), rounded box (roundedBox_exact; size >= 0, rounding >= 0 — with a NEGATIVE rounding the inner offset of a box is not its max-norm level set and the field is only a bound: not claimed), rounded cylinder (roundedCylinder_exact; rounding rb >= 0, core radius 2*radius - rb >= 0, half height >= 0), rounded cone (roundedCone_exact_all)",
+        "combinators and exactness (round 2, Props/C19Compose.lean): Union keeps exactness OUTSIDE, Intersect and Subtract keep it INSIDE (operands 1-Lipschitz and exact on that side), Translate keeps it everywhere; INSIDE a union the field is only a lower bound of the distance — union_not_exact_inside / union_not_exactAt_inside are a closed witness (two unit balls at distance 1, midpoint: field -1/2, every zero-set point at squared distance >= 3/4). The property claims only sign and the Lipschitz bound for the combinators; exactness outside an intersection / subtraction fails in the same way (no witness theorem stated)",
+        "rounded box: negative exactly on the Minkowski sum of the closed box with the open ball of the rounding radius (roundedBox_neg_iff_minkowski). Rounded cylinder with rounding rb > 0, 2·radius − rb >= 0 and height >= 0: negative exactly on the Minkowski sum of the core cylinder (radius 2·radius − rb — sic, the source doubles the radius — half height bodyHeight) with the open ball of radius rb (roundedCylinder_neg_iff_minkowski); both are also exact distances to those Minkowski sums' boundaries (roundedBox_exact, roundedCylinder_exact)",
         "subtract: f<0 iff base<0 and 0<sub (strictly outside the subtracted shape): on the subtracted shape's surface f=0, so 'difference of interiors' is read as interior(A) minus closure(B)",
         "capsule with start = end is excluded (guard a ≠ b; the property quantifies over sizes > 0); in float64 the Go code returns NaN there",
-        "plane: the Lipschitz and exact-distance theorems need a unit normal (n·n = 1); with a non-unit normal the field is a scaled distance (not claimed)",
+        "plane: the 1-Lipschitz and exact-distance theorems need a unit normal (n·n = 1); for an arbitrary normal the field is the distance scaled by |n|, both directions proved (plane_lipschitz_scaled, plane_exact_scaled_le, plane_exact_scaled_attained for n != 0; n = 0 gives the constant h: plane_zero_normal); sign and zero set need no normalisation",
         "sphere_eq, plane_eq, line_eq, roundedBox_eq, translate_spec are definitional unfoldings (rfl) listed for reference: they fix what the regenerated closures compute, they are not property clauses",
         "VarryingThicknessLine: its loop (consecutive points -> RoundedCone, then Union) is a hand model (Model/SdfVarLine.lean, outside the translator's subset) built from the REGENERATED RoundedCone; it is corresponded bit for bit by the c19.varline lines (0..5 points incl. the panic for fewer than two, repeated points, swallowing radii); varLine_lipschitz / varLine_neg_iff are corollaries of the all-parameter rounded-cone theorems and union_lipschitz / union_neg_iff, about that model (varLine_eq_model)",
         "IEEE rounding: theorems are over ℝ",
     ],
     assumptions=["float64 arithmetic in Go on amd64 is IEEE-754 without FMA contraction"],
     manifest=dict(
-        text="All 7 primitive shapes. Parameter ranges: sphere, box, rounded box, rounded cylinder and the rounded cone's sign / zero-set / Lipschitz theorems hold for ALL parameters (rounded cone incl. nested/tangent balls and a = b: the source's early return of the larger ball, added after this proof showed the bare formula wrong there; its convex-hull form needs radii > 0 and 'attained outside' radii >= 0); the capsule theorems need a non-degenerate segment a ≠ b (Go returns NaN for a = b) and, for the attained direction, radius >= 0; the plane's Lipschitz and exact-distance theorems need a unit normal; box 'attained' needs non-negative sizes. Lean 4 theorems over ℝ about the SDF closures regenerated from math/sdf/*.go and line3D.go on every run: sign and zero set: geometric characterisation for sphere, plane, box, capsule, rounded cone (the closure equals a 2-D profile of cylindrical coordinates — two sphere caps and a slanted side separated by one affine functional, branch tests shown exactly equivalent — and is the minimum over t∈[0,1] of |p − (a+t(b−a))| − (r1+t(r2−r1)); negative exactly in the union of these open balls = convex hull of the two open end balls; VarryingThicknessLine = Union of rounded cones inherits sign and Lipschitz) and the un-rounded cylinder (rounded box / rounded cylinder: negative exactly where the 1-Lipschitz core field is below the rounding radius); 1-Lipschitz bound for all of these (|f p − f q| ≤ |p − q|, proved through Mathlib's Euclidean space; box/rounded box/rounded cylinder via a 1-Lipschitz signed distance to the orthant with an intermediate-value argument; capsule via the minimising property of the clamped projection; rounded cone as a minimum of 1-Lipschitz ball gaps), exact distance (sphere, plane, box, capsule: both directions — |f p| ≤ |p − s| for every surface point s and some surface point at distance exactly |f p|, for every p incl. interior and on-axis points; rounded cone: lower bound, and attained outside the shape); rounded box / rounded cylinder = Minkowski sum of the box / core cylinder with the open ball of the rounding radius, union/intersection/subtraction sign laws and Lipschitz closure for any number of operands, translation. Regenerated definitions run at Float and compared bit-for-bit with the Go closures; reference-distance oracles on the Go outputs.",
-        note="Trusted: Lean kernel; propext/Classical.choice/Quot.sound; translator and vector table; hand models of Union/Intersect and of the VarryingThicknessLine loop (both corresponded bit for bit); harness; reference SDFs in the driver. Not proved: exact distance attained for interior points of the rounded cone (not claimed by the property); IEEE rounding.",
+        text="All 7 primitive shapes. Parameter ranges: sphere, box, rounded box, rounded cylinder and the rounded cone's sign / zero-set / Lipschitz theorems hold for ALL parameters (rounded cone incl. nested/tangent balls and a = b: the source's early return of the larger ball, added after this proof showed the bare formula wrong there; its convex-hull form needs radii > 0 and 'attained outside' radii >= 0); the capsule theorems need a non-degenerate segment a ≠ b (Go returns NaN for a = b) and, for the attained direction, radius >= 0; the plane's Lipschitz and exact-distance theorems need a unit normal; box 'attained' needs non-negative sizes. Lean 4 theorems over ℝ about the SDF closures regenerated from math/sdf/*.go and line3D.go on every run: sign and zero set: geometric characterisation for sphere, plane, box, capsule, rounded cone (the closure equals a 2-D profile of cylindrical coordinates — two sphere caps and a slanted side separated by one affine functional, branch tests shown exactly equivalent — and is the minimum over t∈[0,1] of |p − (a+t(b−a))| − (r1+t(r2−r1)); negative exactly in the union of these open balls = convex hull of the two open end balls; VarryingThicknessLine = Union of rounded cones inherits sign and Lipschitz) and the un-rounded cylinder (rounded box / rounded cylinder: negative exactly where the 1-Lipschitz core field is below the rounding radius); 1-Lipschitz bound for all of these (|f p − f q| ≤ |p − q|, proved through Mathlib's Euclidean space; box/rounded box/rounded cylinder via a 1-Lipschitz signed distance to the orthant with an intermediate-value argument; capsule via the minimising property of the clamped projection; rounded cone as a minimum of 1-Lipschitz ball gaps), exact distance for ALL seven primitives, both directions — |f p| ≤ |p − s| for every zero-set point s and some zero-set point at distance exactly |f p|, for every p incl. interior, centre and on-axis points (sphere, plane, box, capsule; rounded box and rounded cylinder with rounding ≥ 0 by an explicit nearest-point ray / outward push in the 2-D or 3-D profile; rounded cone for all parameters with radii ≥ 0: outside by radial projection onto the nearest ball, inside by first-order optimality of the minimising ball and the supporting line of the norm); plane with a non-unit normal = distance scaled by |n|; combinators: Union keeps exactness outside, Intersect/Subtract inside, Translate everywhere, and a closed witness that inside a union the field is only a bound; rounded box / rounded cylinder = Minkowski sum of the box / core cylinder with the open ball of the rounding radius, union/intersection/subtraction sign laws and Lipschitz closure for any number of operands, translation. Regenerated definitions run at Float and compared bit-for-bit with the Go closures; reference-distance oracles on the Go outputs.",
+        note="Trusted: Lean kernel; propext/Classical.choice/Quot.sound; translator and vector table; hand models of Union/Intersect and of the VarryingThicknessLine loop (both corresponded bit for bit); harness; reference SDFs in the driver. Not proved: IEEE rounding (theorems are over ℝ; the Float run of the same regenerated definitions is compared bit for bit with Go); capsule with start = end (Go returns NaN).",
         technique="Lean 4 proof over a model regenerated from source (translator) + Float bit-exact correspondence"),
 )
